@@ -13,7 +13,7 @@ ASSUMPTIONS = ["theorems are single-step (every state / record / frame); the tra
 
 
 def correspondence(ctx):
-    return corr21.run(ctx, 150 if ctx.quick else 5000, 40 if ctx.quick else 1500, 9)
+    return corr21.run(ctx, ctx.n(150, 5000), ctx.n(40, 1500), 9)
 
 
 def stack_vs_stack(rng):
@@ -123,7 +123,7 @@ def stack_vs_peer(rng):
 
 def oracle(ctx, full):
     rng = random.Random(ctx.seed * 7907 + 9)
-    n = 60 if (ctx.quick and not full) else 1500
+    n = ctx.n(60, 1500, full)
     findings, evals, distinct, samples = [], 0, set(), []
     for k in range(n):
         sub = random.Random(rng.getrandbits(48))
